@@ -376,7 +376,12 @@ pub mod details {
         ///  * It has to be ensured that the memory is initialized with
         ///    [`SafelyOverflowingIndexQueue::init()`].
         pub unsafe fn pop(&self) -> Option<u64> {
-            let mut read_position = self.read_position.load(Ordering::Relaxed);
+            ////////////////
+            // SYNC POINT R
+            ////////////////
+            // the producer advances the read position in the overflow case, the write position
+            // loaded below must not be older than the one that belongs to this read position
+            let mut read_position = self.read_position.load(Ordering::Acquire);
             ////////////////
             // SYNC POINT W
             ////////////////
